@@ -129,6 +129,17 @@ def sast_family_resolved_c(which: int, style: int, args: int, decoy: int, layout
     return fin(_sast_resolved(SAST_C[2:] + SAST_D, which, style, args, decoy, layout))
 
 
+def sast_family_resolved_d(which: int, style: int, args: int, decoy: int, layout: int) -> bool:
+    """Same oracle over the detector-less entries of the family: fix-math-isclose, timezone-aware-datetime (utcnow,
+    utcfromtimestamp), secure-tempfile - including the surroundings in which the module the rewrite needs is imported
+    only inside an unrelated function.
+    post: _
+    """
+    from harness.hardsast import DETECTORLESS
+
+    return fin(_sast_resolved(DETECTORLESS, which, style, args, decoy, layout))
+
+
 def warmup():
     mutable_params(0, True, False, True, False, False)
     import_block_order(7, 0, 0, False)
@@ -154,5 +165,5 @@ SPEC = {
     "outside": ["import insertion by codemods outside the families listed under functions", "RemoveUnusedVariables, sql-parameterization clean-up", "class scopes, nested functions deeper than one level"],
     "rule": "as C08; the query is restricted to outcome kind NameError",
     "drivers": [name_errors],
-    "xh": [__import__("vlib.main", fromlist=["Xh"]).Xh(fn, 500, 900) for fn in ("import_block_order", "import_block_unused", "import_block_future")] + [__import__("vlib.main", fromlist=["Xh"]).Xh("mutable_params", 300, 600)] + [__import__("vlib.main", fromlist=["Xh"]).Xh(fn, 500, 900) for fn in ("sast_family_resolved_a", "sast_family_resolved_b", "sast_family_resolved_c")],
+    "xh": [__import__("vlib.main", fromlist=["Xh"]).Xh(fn, 500, 900) for fn in ("import_block_order", "import_block_unused", "import_block_future")] + [__import__("vlib.main", fromlist=["Xh"]).Xh("mutable_params", 300, 600)] + [__import__("vlib.main", fromlist=["Xh"]).Xh(fn, 500, 900) for fn in ("sast_family_resolved_a", "sast_family_resolved_b", "sast_family_resolved_c", "sast_family_resolved_d")],
 }
